@@ -14,6 +14,9 @@ package main
 //   server facts     the guard around telemetry.New in Server.Start, the value given to
 //                    telemetry.Config.Enabled, the nil guard around Start(), the version
 //                    argument, the number of creation sites
+//   path facts       gen_telemetry_path.go: DefaultConfig(), the rewrites telemetry.New applies
+//                    to its *Config parameter, assignments to `config` fields, the
+//                    telemetry.Config literal of Server.Start, the paths of loadOrCreateInstanceID
 //
 // A shape that is neither the one the model was written against nor a recognised variant
 // is appended to `lost` (a broken tie), never guessed.
@@ -529,8 +532,11 @@ func firstCall(f *file, n ast.Node, callee string) *ast.CallExpr {
 }
 
 func genTelemetry() *leanFile {
-	l := newLean("Telemetry", "/repo/"+telemetryGo+", "+configGo+", "+serverGo)
+	l := newLean("Telemetry", "/repo/"+telemetryGo+", "+configGo+", "+serverGo, "Liftbridge.Model.TelemetryTypes")
 	tf, cf, sf := load(telemetryGo), load(configGo), load(serverGo)
+
+	// the path config → Server.Start → telemetry.New → Collector.Start (gen_telemetry_path.go)
+	genTelemetryPath(l, tf, sf)
 
 	// (a) payload keys
 	var keys []string
@@ -862,7 +868,7 @@ func genTelemetry() *leanFile {
 	}
 
 	// ---- server.go: Server.Start ----
-	createGuarded, cfgCopies, startNilGuard := false, false, false
+	createGuarded, startNilGuard := false, false
 	versionArg := ""
 	if fd := sf.fn("Server.Start"); fd != nil {
 		if ce := firstCall(sf, fd.Body, "telemetry.New"); ce != nil {
@@ -892,26 +898,6 @@ func genTelemetry() *leanFile {
 		} else {
 			lost = append(lost, serverGo+":Server.Start (telemetry.New call not found)")
 		}
-		// telemetry.Config literal
-		found := false
-		ast.Inspect(fd.Body, func(n ast.Node) bool {
-			if cl, ok := n.(*ast.CompositeLit); ok && nows(sf.src(cl.Type)) == "telemetry.Config" {
-				for _, el := range cl.Elts {
-					if kv, ok := el.(*ast.KeyValueExpr); ok && nows(sf.src(kv.Key)) == "Enabled" {
-						switch nows(sf.src(kv.Value)) {
-						case "true":
-							found, cfgCopies = true, false
-						case "s.config.Telemetry.Enabled":
-							found, cfgCopies = true, true
-						}
-					}
-				}
-			}
-			return true
-		})
-		if !found {
-			lost = append(lost, serverGo+":Server.Start (telemetry.Config{Enabled: …} is neither `true` nor s.config.Telemetry.Enabled)")
-		}
 		if ce := firstCall(sf, fd.Body, "s.telemetry.Start"); ce != nil {
 			conds := enclosingIfs(sf, fd, ce.Pos())
 			if len(conds) == 1 && conds[0] == "s.telemetry!=nil" {
@@ -926,10 +912,9 @@ func genTelemetry() *leanFile {
 		lost = append(lost, serverGo+":Server.Start (function not found)")
 	}
 	l.def("createGuarded", "Bool", leanBool(createGuarded), "Server.Start: telemetry.New only inside `if s.config.Telemetry.Enabled`")
-	l.def("collectorCfgCopiesEnabled", "Bool", leanBool(cfgCopies), "telemetry.Config{Enabled: s.config.Telemetry.Enabled} (false = literal true)")
 	l.def("startNilGuard", "Bool", leanBool(startNilGuard), "Server.Start: `if s.telemetry != nil { s.telemetry.Start() }`")
 	l.def("versionArg", "String", leanStr(versionArg), "second argument of telemetry.New in Server.Start")
-	facts["Telemetry.createGuarded"], facts["Telemetry.collectorCfgCopiesEnabled"], facts["Telemetry.versionArg"] = createGuarded, cfgCopies, versionArg
+	facts["Telemetry.createGuarded"], facts["Telemetry.versionArg"] = createGuarded, versionArg
 
 	// creation sites of a collector and assignments to the telemetry field, over all
 	// non-test Go files of the module outside package telemetry
